@@ -369,9 +369,10 @@ def rule_shebang(ck: Check, repo: Repo, rid: str = "R3") -> None:
         if pa != want:
             r.violation(q, "place_header operands", f"{pa}; expected {['<the created header>'] + want[1:]}", repo.loc(ph[0]))
         # the style's declaration table is consulted: a loop over it, or a generator over it handed to next()
-        table_loops = [n for n in ast.walk(fn) if isinstance(n, ast.For) and re.fullmatch(r"\w+\.SHEBANGS", ast.unparse(n.iter))]
+        _tbl = r"\w+\.SHEBANGS( or (\(\)|\[\]))?"        # `style.SHEBANGS or ()` walks the same table
+        table_loops = [n for n in ast.walk(fn) if isinstance(n, ast.For) and re.fullmatch(_tbl, ast.unparse(n.iter))]
         table_gens = [g for n in ast.walk(fn) if isinstance(n, ast.GeneratorExp) for g in n.generators
-                      if re.fullmatch(r"\w+\.SHEBANGS", ast.unparse(g.iter))]
+                      if re.fullmatch(_tbl, ast.unparse(g.iter))]
         r.instance(f"shebang-table:{name}", {"loops": len(table_loops), "generators": len(table_gens)}, q)
         if not table_loops and not table_gens:
             r.violation(q, "shebang table not consulted", "", repo.loc(fn))
